@@ -2,3 +2,5 @@ INIT Init
 NEXT Next
 CONSTANTS
   N = 4
+  Full = FALSE
+  Fifth = FALSE
